@@ -779,6 +779,7 @@ pub fn one_main(args: &[String]) -> i32 {
         }
     };
     let outcome = evaluate_one(&spec);
+    remove_logo_dir();
     println!("{}", serde_json::json!({"outcome": outcome}));
     0
 }
@@ -1171,6 +1172,11 @@ fn exec_op(
                 oracle.lock().unwrap().stats.probe("raster_large_symbol");
             }
             let rk = if *pixmap { "pixmap" } else { "png" };
+            if let Some(ImageSpec::File(logo)) = &m.image {
+                // the file behind the image option holds what the model says, right now
+                prepare_logo(*logo);
+                oracle.lock().unwrap().stats.probe("file_backed_image_render");
+            }
             let key = format!("R|{}|{}|{}", rk, m.key(), v.digest);
             let spec = Some(OneSpec { cfg: v.cfg.clone(), tweaks: v.tweaks.to_vec(), render: Some((rk.into(), m.canonical_setters())) });
             sched::op_begin(sim, id, crash);
@@ -1252,6 +1258,9 @@ pub fn evaluate_one(spec: &OneSpec) -> Outcome {
         if let Some(m) = qr.data.get_mut(*idx as usize) {
             m.0 ^= *xor;
         }
+    }
+    if let Some(ImageSpec::File(logo)) = &RenderModel::from_setters(setters, true).image {
+        prepare_logo(*logo);
     }
     match kind.as_str() {
         "svg" => render_svg_outcome(&svg_builder_from(setters), &qr),
